@@ -144,6 +144,7 @@ class MiniFuture:
         self._result = None
         self._exc = None
         self._cbs = []
+        self._retrieved = False
         loop.futures.append(self)
 
     def get_loop(self):
@@ -183,6 +184,7 @@ class MiniFuture:
             raise asyncio.CancelledError()
         if self._state != 'FINISHED':
             raise asyncio.InvalidStateError('Result is not ready.')
+        self._retrieved = True
         if self._exc is not None:
             raise self._exc
         return self._result
@@ -192,6 +194,7 @@ class MiniFuture:
             raise asyncio.CancelledError()
         if self._state != 'FINISHED':
             raise asyncio.InvalidStateError('Exception is not set.')
+        self._retrieved = True
         return self._exc
 
     def add_done_callback(self, cb, context=None):
@@ -339,6 +342,14 @@ class MiniLoop:
 
     def call_exception_handler(self, ctx):
         self.exceptions.append(ctx)
+
+    def unretrieved(self):
+        """futures/tasks that ended with an exception nobody looked at - what
+        asyncio reports to the loop exception handler as 'never retrieved'"""
+        return [f for f in self.futures if f._state == 'FINISHED' and f._exc is not None and not f._retrieved]
+
+    def pending(self):
+        return [f for f in self.futures if f._state == 'PENDING']
 
     def fire_timer(self, i=0):
         live = [h for h in self.timers if not h.cancelled_]
